@@ -48,6 +48,8 @@ def sim_kill(pid, sig):
             p.pending_signals.append(sig)
             # wake the main thread if it sits in an interruptible call
             mt = p.main
+            if mt is not None and mt.held:
+                mt.held = False        # a directed trigger was holding it at a chosen point until this signal arrived
             if mt is not None and mt.state == core.BLOCKED:
                 sim.wake(mt)
         elif callable(h):
